@@ -95,7 +95,7 @@ EXPORT errno_t _wcscmp_s_chk(const wchar_t *restrict dest, rsize_t dmax,
         return RCNEGATE(ESZEROL);
     }
     if (destbos == BOS_UNKNOWN) {
-        CHK_DMAX_MAX("wcscmp_s", RSIZE_MAX_STR)
+        CHK_DMAX_MAX("wcscmp_s", RSIZE_MAX_WSTR)
         BND_CHK_PTR_BOUNDS(dest, destsz);
     } else {
         CHK_DESTW_OVR("wcscmp_s", destsz, destbos)
@@ -117,7 +117,7 @@ EXPORT errno_t _wcscmp_s_chk(const wchar_t *restrict dest, rsize_t dmax,
         }
     }
 
-    while (*dest && *src && dmax && smax) {
+    while (dmax && smax && *dest && *src) {
 
         if (*dest != *src) {
             break;
@@ -129,6 +129,7 @@ EXPORT errno_t _wcscmp_s_chk(const wchar_t *restrict dest, rsize_t dmax,
         smax--;
     }
 
-    *resultp = *dest - *src;
+    /* equal within the compared elements, or the first differing pair */
+    *resultp = (dmax && smax) ? *dest - *src : 0;
     return RCNEGATE(EOK);
 }
